@@ -22,5 +22,9 @@ package crew
 //@   safety C16
 //@   requires c != nil && forall k string :: (k in c.Machines) ==> c.Machines[k] != nil
 //@   modifies nothing
+// Every machine is copied while the crew's lock is held: a machine's state is
+// replaced under the write lock (Process), so a copy made outside the lock
+// could mix states from before and after a request.
+//@   callpre[C16] Copy: locked(c)
 //@   ensures[C16] snapshot: acc != nil && fresh(acc) && forall k string :: (k in acc.Machines) ==> old(k in c.Machines)
 //@   loop 0 invariant fresh(ms) && forall k string :: (k in ms) ==> old(k in c.Machines)
